@@ -120,7 +120,7 @@ func main() {
 		}
 	}
 
-	total := o.Count(300, 30000)
+	total := o.Count(500, 30000)
 	for c := 0; c < total; c++ {
 		f := fmts[r.Pick(len(fmts))]
 		env := pipe.Env{Header: r.Chance(0.5), Trailer: r.Chance(0.5), Ctx: "H1"}
@@ -151,10 +151,11 @@ func main() {
 		}
 		// input: record-structured (with failing records) or the fixture generator, sometimes damaged
 		var in []byte
+		var recs []pipe.Rec
 		kind := "records"
 		if r.Chance(0.7) || (f.Name == "json" && env.Header) {
 			n := r.Between(2, 7)
-			recs := make([]pipe.Rec, n)
+			recs = make([]pipe.Rec, n)
 			for i := range recs {
 				recs[i] = pipe.GenRec(r, f, false)
 			}
@@ -214,6 +215,31 @@ func main() {
 			}
 		}
 		if k := differing(ts); k >= 0 {
+			// shrink: drop records while the two configurations still disagree
+			shrunkFrom := len(recs)
+			for changed := recs != nil; changed; {
+				changed = false
+				for j := 0; j < len(recs) && len(recs) > 1; j++ {
+					cand := append(append([]pipe.Rec(nil), recs[:j]...), recs[j+1:]...)
+					cin := f.Render(env, cand)
+					pipe.Apply(cfgs[0], true)
+					a := comp.Run(cfgs[0], cin, cs.Ext)
+					pipe.Apply(cfgs[k], true)
+					b := comp.Run(cfgs[k], cin, cs.Ext)
+					if !a.Equal(b) {
+						recs, changed = cand, true
+						ts[0], ts[k] = a, b
+						cs = pipe.NewCase(f.Name, schema, cin)
+						cs.Ext = map[string]string(nil)
+						if feats["external-const"] {
+							cs.Ext = map[string]string{"ext1": "E1"}
+						}
+						break
+					}
+				}
+			}
+			pipe.Default()
+			_ = shrunkFrom
 			i := pipe.FirstDiff(ts[0], ts[k])
 			sum.Fail("transcript under ["+cfgs[k].String()+"] differs from the transcript with everything on (first difference at result "+fmt.Sprint(i)+")",
 				cs, map[string]interface{}{"all_on": runOut{cfgs[0].String(), ts[0]}, "differs": runOut{cfgs[k].String(), ts[k]},
